@@ -31,6 +31,7 @@ type Result struct {
 	Outcome    string // coarse observed outcome (for the vacuity count)
 	NonTrivial bool
 	Skipped    bool // case not applicable (counted, not evaluated)
+	Steps      int64 // transitions executed on the implementation by this case (state-space checks)
 }
 
 // Spec describes a check whose cases are independent of each other.
@@ -54,6 +55,8 @@ type Spec[T any] struct {
 	Workers int
 	// Deadline is the backstop for the whole tier (0 = default).
 	Deadline map[string]time.Duration
+	// Finish lets a check derive evidence keys from the aggregated report (optional).
+	Finish func(rep *Report)
 	// Custom, if set, replaces Gen/Run sharding entirely (engines like xstate, TLC, sched).
 	Custom func(tier string, rep *Report)
 	// ReplayCustom replays a case stored by a Custom check.
@@ -97,6 +100,7 @@ type workerOut struct {
 	Classes     map[string]*classAgg `json:"classes"`
 	Samples     []json.RawMessage `json:"samples"`
 	Done        bool              `json:"done"`
+	Steps       int64             `json:"steps"`
 	Emitted     int64             `json:"emitted"` // every case the generator produced (all shards): must agree across workers
 }
 
@@ -232,6 +236,7 @@ func (s *Spec[T]) worker(tier string, shard, n int, out string, skipKey string) 
 			return
 		}
 		wo.Evaluations++
+		wo.Steps += res.Steps
 		if res.NonTrivial {
 			wo.NonTrivial++
 		}
@@ -300,6 +305,7 @@ type Report struct {
 	Exhaustive  bool
 	Caps        []string
 	Unstable    []string
+	Steps       int64
 	start       time.Time
 }
 
@@ -391,6 +397,9 @@ func (s *Spec[T]) parent(tier string) int {
 		for k, v := range s.Extra(tier) {
 			rep.Extra[k] = v
 		}
+	}
+	if s.Finish != nil {
+		s.Finish(rep)
 	}
 	return rep.Finish()
 }
@@ -509,6 +518,7 @@ func (s *Spec[T]) shardedRun(tier string, rep *Report) {
 		emitted = wo.Emitted
 		rep.Extra["cases_generated"] = wo.Emitted
 		rep.Evaluations += wo.Evaluations
+		rep.Steps += wo.Steps
 		rep.Distinct += wo.Distinct
 		rep.NonTrivial += wo.NonTrivial
 		rep.Skipped += wo.Skipped
